@@ -128,6 +128,18 @@ func argSlice[T any](vals []T) []T {
 	return s
 }
 
+// scribbleCheck: after a call that received the caller-owned slice arg, the caller
+// overwrites it up to its capacity; the container must not notice (C16).
+func scribbleCheck[T comparable](arg []T, poison T, values func() []T, cname, opname string) *Viol {
+	pre := values()
+	scribble(arg, poison)
+	post := values()
+	if !sameMultiset(pre, post) {
+		return viol(tag("C16"), "invariant", "%s.%s keeps the caller's argument slice: writing to that slice after the call changed the container from %v to %v", cname, opname, pre, post)
+	}
+	return nil
+}
+
 func scribble[T any](s []T, poison T) {
 	s = s[:cap(s)]
 	for i := range s {
